@@ -19,7 +19,7 @@ ASSUMPTIONS = [
     'inputs are str objects without lone surrogates',
     'K2: an epoch longer than sys.get_int_max_str_digits() digits is rejected by the interpreter (hypothesis of the accept clause)',
 ]
-RULE = ('exhaustive: every string up to length L over the class alphabet {0 1 a Z . + - ~ : space _ U+0663 U+00B2}; '
+RULE = ('sweep: every foreign character (case-fold look-alikes, other-script digits and letters, punctuation, separators) and every str.format/% hazard at every position of 16 contexts; exhaustive: every string up to length L over the class alphabet {0 1 a Z . + - ~ : space _ U+0663 U+00B2}; '
         'random: grammar versions with whitespace padding, long epochs, unicode junk. '
         'non-trivial = the trimmed input starts with a digit (it gets past the first character of the pattern)')
 
@@ -70,14 +70,18 @@ def random_cases(rng, n):
             s = ''.join(rng.choice(ALPHABET + ['9', 'b', '\n', '\t', 'é', '१', '１'])
                         for _ in range(rng.randint(0, 9)))
         else:
-            s = genlib.rand_version(rng) + rng.choice(('', '_', ':', '-', ' x', '٣', ':1', '--', '-+'))
+            s = genlib.rand_version(rng) + rng.choice(('', '_', ':', '-', ' x', '٣', ':1', '--', '-+') + tuple(genlib.FOREIGN) + tuple(genlib.FORMAT_HAZARDS))
         if rng.random() < 0.3:
             s = ''.join(rng.choice(genlib.SPACES) for _ in range(rng.randint(0, 2))) + s + \
                 ''.join(rng.choice(genlib.SPACES) for _ in range(rng.randint(0, 2)))
         yield s
 
 
+SWEEP_CONTEXTS = ['@', '1@', '@1', '1.0@', '1.0@1', '1@:1.0', '@:1.0', '1:1.0@', '1:@1', '1.0-@', '1.0-1@', '1.0-@1', '1.0@-1', '1:1.0@-1', '2:1.0-1@0.5', ' 1.0@ ']
+
+
 def streams(tier, rng):
+    yield {'name': 'foreign-character-sweep', 'op': 'C03', 'cases': genlib.foreign_sweep(SWEEP_CONTEXTS), 'exhaustive': True}
     L = 5 if tier == 'quick' else 6
     yield {'name': 'exhaustive-len<=%d' % L, 'op': 'C03', 'cases': genlib.strings_upto(ALPHABET, L), 'exhaustive': True}
     yield {'name': 'random', 'op': 'C03', 'cases': random_cases(rng, 10000 if tier == 'quick' else 200000)}
